@@ -261,10 +261,11 @@ class MapStringTransformation(StringValueTransformation):
         self, field: str | None, val: SigmaString
     ) -> (SigmaType | list[SigmaType]) | None:
         mapped = self.mapping.get(str(val), None)
+        # The mapped strings get the class of the value: a case-sensitive string stays case-sensitive.
         if isinstance(mapped, str):
-            return SigmaString(mapped)
+            return val.__class__(mapped)
         elif isinstance(mapped, list):
-            return [SigmaString(item) for item in mapped]
+            return [val.__class__(item) for item in mapped]
         else:
             return None
 
